@@ -105,8 +105,8 @@ mutual
   def typeFmt : PyVal → Str
     | .str s => s
     | .int i => intText i
-    | .bool b => if b then "true".toList else "false".toList
-    | .none => "None".toList
+    | .bool b => if b then ['t', 'r', 'u', 'e'] else ['f', 'a', 'l', 's', 'e']
+    | .none => ['N', 'o', 'n', 'e']
     | .bytes bs => decodeBytes bs
     | .tuple vs => joinColon (fmtList vs)
     | .dict kvs => joinColon ((sortKey (fmtItems kvs)).map fun kv => kv.1 ++ ':' :: kv.2)
@@ -116,7 +116,7 @@ mutual
     | .none => []
     | .str s => s
     | .int i => intText i
-    | .bool b => if b then "true".toList else "false".toList
+    | .bool b => if b then ['t', 'r', 'u', 'e'] else ['f', 'a', 'l', 's', 'e']
     | .bytes bs => decodeBytes bs
     | .tuple vs => joinColon (fmtList vs)
     | .dict kvs => joinColon ((sortKey (fmtItems kvs)).map fun kv => kv.1 ++ ':' :: kv.2)
@@ -155,15 +155,46 @@ def renderWith (txt : Str → Str) : Tmpl → Str
   | .lit s :: r => s ++ renderWith txt r
   | .field n :: r => txt n ++ renderWith txt r
 
-/-- `_FuncFormatter.vformat`: when every field of the template is among the values
-`format_string.format(**{k: _type_format(v)})` succeeds (fast path); otherwise `KeyError` sends it to
-`string.Formatter.vformat`, where a missing field is `""` (`get_field` default of `default_formatter`)
-and a present one is `_format_field(value)` — `None` renders `""` there. -/
+/-- every field of the template is among the values: `format_string.format(**{k: _type_format(v)})`
+succeeds (fast path of `_FuncFormatter.vformat`); otherwise its `KeyError` sends the call to
+`string.Formatter.vformat` (slow path) -/
+def fastPath (t : Tmpl) (vals : Dict) : Bool :=
+  t.fields.all fun n => (get? vals n).isSome
+
+/-- the text substituted for field `n`: on the fast path `_type_format(value)`; on the slow path
+`_format_field(value)` — `None` renders `""` there — and `""` for a missing field (`get_field`
+default of `default_formatter`) -/
+def fieldText (fast : Bool) (vals : Dict) (n : Str) : Str :=
+  match get? vals n with
+  | some v => if fast then typeFmt v else fmtField v
+  | none => []
+
+/-- `_FuncFormatter.vformat` on templates of literals and plain fields -/
 def render (t : Tmpl) (vals : Dict) : Str :=
-  if t.fields.all (fun n => (get? vals n).isSome) then
-    renderWith (fun n => match get? vals n with | some v => typeFmt v | none => []) t
-  else
-    renderWith (fun n => match get? vals n with | some v => fmtField v | none => []) t
+  renderWith (fieldText (fastPath t vals) vals) t
+
+/-- consecutive fields are separated by a literal containing ':' (`pend`: a field was rendered and
+no ':' literal has followed it yet) -/
+def sepAux : Bool → Tmpl → Bool
+  | _, [] => true
+  | pend, .lit s :: r => sepAux (pend && !(s.contains ':')) r
+  | pend, .field _ :: r => !pend && sepAux true r
+
+def separated (t : Tmpl) : Bool := sepAux false t
+
+/-- Python's `type(v)` -/
+inductive PyType where
+  | str | int | bool | none | bytes | tuple | dict
+  deriving DecidableEq, Repr
+
+def PyVal.type : PyVal → PyType
+  | .str _ => .str
+  | .int _ => .int
+  | .bool _ => .bool
+  | .none => .none
+  | .bytes _ => .bytes
+  | .tuple _ => .tuple
+  | .dict _ => .dict
 
 /-! ## signatures and binding — `inspect.Signature._bind`, `BoundArguments.apply_defaults` -/
 
@@ -267,8 +298,8 @@ def boundArgs (sig : Sig) (c : Call) : Option Bound :=
 
 /-! ## `cashews/key.py` -/
 
-def ARGS : Str := "__args__".toList
-def KWARGS : Str := "__kwargs__".toList
+def ARGS : Str := ['_', '_', 'a', 'r', 'g', 's', '_', '_']
+def KWARGS : Str := ['_', '_', 'k', 'w', 'a', 'r', 'g', 's', '_', '_']
 
 /-- the loop at the end of `_get_call_values`: `*args` goes under `__args__`, `**kwargs` under
 `__kwargs__` *and* item by item (`result.update(_value)`) -/
@@ -313,7 +344,7 @@ def autoItems (excl : List Str) : Sig → Tmpl
 /-- `f"{func.__module__}:{func.__name__}"`, with `__qualname__` when the first parameter is `self` -/
 def autoPrefix (mod name qual : Str) (sig : Sig) : Str :=
   match sig with
-  | p :: _ => if paramKey p = "self".toList then mod ++ ':' :: qual else mod ++ ':' :: name
+  | p :: _ => if paramKey p = ['s', 'e', 'l', 'f'] then mod ++ ':' :: qual else mod ++ ':' :: name
   | [] => mod ++ ':' :: name
 
 def autoTemplate (mod name qual : Str) (excl : List Str) (sig : Sig) : Tmpl :=
